@@ -122,7 +122,8 @@ def walk(x, visit, parent=None, key=None, _seen=None):
 class Impl:
   """The forest of live PyGlove objects a case operates on."""
   def __init__(self):
-    self.roots = []          # object | None
+    self.roots = []          # object | None (None: the object of this slot currently sits inside another tree)
+    self.moved = {}          # slot index -> that object
     self.opq = {}            # literal oid -> Opq
 
   # -- literals -----------------------------------------------------------------------------------
@@ -212,6 +213,10 @@ class Impl:
     canon = {}
     return [[] if r is None else [self.snap(r, None, canon)] for r in self.roots]
 
+  def snapshot_solo(self):
+    """One snapshot per root, opaque leaves numbered per root (for comparing a single root over time)."""
+    return [[] if r is None else [self.snap(r, None, {})] for r in self.roots]
+
   # -- bookkeeping of reachable nodes ---------------------------------------------------------------
   def reachable(self, only=None):
     """id -> (obj, root index, keys) for every symbolic node stored below a live root."""
@@ -253,6 +258,8 @@ class Impl:
     return self.enc_ret_value(v)
 
   def enc_ret_value(self, v):
+    if v is None:
+      return [0]
     if is_sym(v):
       loc = self.locate(v)
       return loc if loc is not None else [4]
@@ -342,20 +349,41 @@ def apply_op(impl, scope, op):
       elif v[0] == 2: check(v[1])
     for v in op_values(op):
       check(v)
+      if not value_ok(v):
+        raise NotApplicable()
   except NotApplicable:
     return [1, ERR_NA], info
   info['target'] = target
   pre = impl.reachable()
   pre_order = list(pre.values())
+  rank = {}
+  if tag in (REBIND, DUPDATE, DIOR):
+    # application order of the written paths, keyed by the actual position they address before the op
+    paths = [[dec_key(kk) for kk in p] for p, _ in op[2]] if tag == REBIND else [[dec_key(kk)] for kk, _ in op[2]]
+    tkeys = pre[id(target)][2]
+    for n, i in enumerate(app_order(impl, target, [[enc_key(k) for k in p] for p in paths])):
+      x, actual = target, []
+      for kk in paths[i]:
+        if isinstance(x, list) and isinstance(kk, int) and -len(x) <= kk < 0:
+          kk += len(x)
+        actual.append(kk)
+        x = x.sym_getattr(kk) if is_sym(x) and ((isinstance(x, list) and isinstance(kk, int) and 0 <= kk < len(x)) or (not isinstance(x, list) and x.sym_hasattr(kk))) else None
+      rank.setdefault(tuple(map(repr, tkeys + actual)), n)
   new_results = []
   ret = None
   exc = None
-  with scoped(scope):
-    try:
-      with watchdog(WATCHDOG_S):
-        ret = run_op(impl, target, op, new_results)
-    except Exception as e:     # pylint: disable=broad-except
-      exc = e
+  # argument values are built before the scoped call is entered (as in `v = pg.Dict(..); with scope: x.op(v)`)
+  try:
+    vals = iter([impl.value(v) for v in op_values(op)])
+  except Exception as e:       # pylint: disable=broad-except
+    exc = e
+  if exc is None:
+    with scoped(scope):
+      try:
+        with watchdog(WATCHDOG_S):
+          ret = run_op(impl, target, op, new_results, lambda v: next(vals))
+      except Exception as e:     # pylint: disable=broad-except
+        exc = e
   info['exception'] = exc
   # --- which old roots were moved into another tree; which nodes were removed from their tree
   old_n = len(impl.roots)
@@ -370,6 +398,7 @@ def apply_op(impl, scope, op):
         walk(o, visit)
     if inside[0]:
       impl.roots[i] = None
+      impl.moved[i] = r
   impl.roots.extend(new_results)
   now = impl.reachable()
   del impl.roots[old_n:]
@@ -385,15 +414,14 @@ def apply_op(impl, scope, op):
     return not any(v is x for _, v in sym_children(par))
   det = [(x, ri, keys) for (x, ri, keys) in gone if topmost(x, ri, keys)]
   if tag in (REBIND, DUPDATE, DIOR) and len(det) > 1:
-    paths = [p for p, _ in op[2]] if tag == REBIND else [[kk] for kk, _ in op[2]]
-    order = app_order(impl, target, paths)
-    tkeys = pre[id(target)][2]
-    rank = {}
-    for n, i in enumerate(order):
-      rank.setdefault(tuple(map(repr, tkeys + [dec_key(kk) for kk in paths[i]])), n)
-    det.sort(key=lambda t: rank.get(tuple(map(repr, t[2])), len(order)))
+    det.sort(key=lambda t: rank.get(tuple(map(repr, t[2])), len(rank)))
   for x, _, _ in det:
-    impl.roots.append(x)
+    slot = [i for i, m in impl.moved.items() if m is x]
+    if slot:                       # a root that had been moved into a tree comes back to its own slot
+      impl.roots[slot[0]] = x
+      del impl.moved[slot[0]]
+    else:
+      impl.roots.append(x)
     info['detached'].append(x)
   for x in new_results:
     impl.roots.append(x)
@@ -413,10 +441,9 @@ def op_values(op):
   if tag == REBIND: return [v for _, v in op[2]]
   return []
 
-def run_op(impl, t, op, new_results):
+def run_op(impl, t, op, new_results, val):
   P = pg()
   tag = op[0]
-  val = impl.value
   if tag == LSET: t[op[2]] = val(op[3]); return None
   if tag == LDEL: del t[op[2]]; return None
   if tag == LAPPEND: return t.append(val(op[2]))
@@ -500,3 +527,22 @@ def run_case(case, after_step=None, after_init=None):
     if after_step: after_step(impl, n, scope, op, res, info, before)
     outs.append([res, impl.snapshot()])
   return [snap0, outs]
+
+# ---- literal validity (the same predicate as lit_valid of the model) -------------------------------------
+def lit_ok(lt, top=True):
+  if lt[0] == 0:
+    return top or lt[1][0] not in (4, 9)
+  _, kind, flags, plain, items = lt
+  keys = [tuple(k) for k, _ in items]
+  if kind >= 2:
+    if plain or [dec_key(k) for k, _ in items] != CLASS_FIELDS.get(kind - 2, ['x']):
+      return False
+  elif kind == 0:
+    if len(set(keys)) != len(keys):
+      return False
+  return all(lit_ok(v, False) for _, v in items)
+
+def value_ok(v):
+  if v[0] == 0: return lit_ok(v[1], True)
+  if v[0] == 2: return value_ok(v[1])
+  return True
